@@ -2,7 +2,7 @@
 (* Schedule source: TLC enumerates EVERY case of the design spec (breadth-first, no simulation needed: the
    environment chooses the whole schedule with its first move) and prints it as a schedule.  Only the environment's
    moves (the abstract submissions) are recorded; what the handler does with them is the implementation's business.
-   Four families (one TLC run each): "single" one single-element call, "batch" one call with 2..3 elements,
+   Five families (one TLC run each; "big" - one peer message with 5..24 entries - with its own, larger V): "single" one single-element call, "batch" one call with 2..3 elements,
    "seq" 2..3 calls that carry the same signature, "fseq" 2..3 calls whose objects lie in different fork versions.  The Cfg step carries the model's endpoint list (the executor
    cross-checks it against the exported method set of validatorapi.Component) and the model's signing tables -
    domain name and epoch source per type - from which the executor signs. *)
@@ -14,6 +14,7 @@ GenInit == Init /\ hist = <<>>
 GenNext == /\ phase = "idle"
            /\ \/ GenFamily = "single" /\ \E c \in CasesOn(Paths) : Submit(c) /\ hist' = <<CfgStep, [ev |-> "Submit", c |-> c]>>
               \/ GenFamily = "batch" /\ \E b \in BatchCasesOn(Paths) : SubmitBatch(b) /\ hist' = <<CfgStep, [ev |-> "SubmitBatch", c |-> b]>>
+              \/ GenFamily = "big" /\ \E b \in BigCases : SubmitBig(b) /\ hist' = <<CfgStep, [ev |-> "SubmitBig", c |-> b]>>
               \/ GenFamily = "seq" /\ \E q \in SeqsOn(Paths) :
                      Submit(q[1]) /\ hist' = <<CfgStep>> \o [i \in 1..Len(q) |-> [ev |-> "Submit", c |-> q[i]]]
               \/ GenFamily = "fseq" /\ \E q \in ForkSeqsOn(Paths) :
